@@ -15,7 +15,7 @@ import itertools
 import json
 import os
 
-from harness import fw
+from harness import fw, rxgen
 from harness.fw import Err, catch, cstr, clist, cpair, copt, cbool
 
 IMPORTS = ["Webob.Lib.Rx", "Webob.Gen.C11_rx", "Webob.Model.C11_etag"]
@@ -149,6 +149,18 @@ def live_patterns():
     return lst[0], rsp[0]
 
 
+def asctime_pattern():
+    """the compiled pattern IfRange.parse full-matches a value with before reading it as a zone-less (asctime) date;
+    None when IfRange.parse uses no pattern"""
+    import webob.etag as E
+    pats = _patterns_used(E.IfRange.parse.__func__)
+    if len(pats) > 1:
+        raise Stop("IfRange.parse uses %d compiled patterns" % len(pats))
+    if pats and "fullmatch" not in E.IfRange.parse.__func__.__code__.co_names:
+        raise Stop("IfRange.parse does not use fullmatch on its pattern")
+    return pats[0] if pats else None
+
+
 def _cr(rs):
     return "[%s]" % "; ".join("(%d, %d)" % r for r in rs)
 
@@ -162,16 +174,27 @@ def gen(ctx):
     try:
         (ln, lp), (rn, rp) = live_patterns()
         L, R = translate_pattern(lp), translate_pattern(rp)
+        ap = asctime_pattern()
+        if ap is None:
+            asc_term, asc_src = "Emp", "(none: IfRange.parse full-matches no pattern)"
+        else:
+            asc_term, _ = rxgen.full_mode(ap[1].pattern + r"\Z", ap[1].flags)      # fullmatch(p) = match(p + \Z)
+            asc_src = "webob.etag.%s = %s" % (ap[0], _incomment(ap[1].pattern))
     except Stop as e:
         return "C11 translator stopped (fail-closed): %s" % e
+    except Exception as e:  # noqa -- rxgen.Untranslatable and friends
+        return "C11 translator stopped (fail-closed) on the asctime pattern: %s: %s" % (type(e).__name__, e)
     txt = "(* REGENERATED on every run by harness/props/c11.py from the live webob pattern objects. Do not edit.\n"
     txt += "   list scanner  webob.etag.%s        = %s\n" % (ln, _incomment(lp.pattern))
     txt += "   response side webob.descriptors.%s = %s *)\n" % (rn, _incomment(rp.pattern))
-    txt += "From Coq Require Import NArith List Bool.\nImport ListNotations.\nLocal Open Scope N_scope.\n"
+    txt = txt[:-4] + "\n   asctime shape " + asc_src + " *)\n"
+    txt += "From Coq Require Import NArith List Bool.\nRequire Import Webob.Lib.Val Webob.Lib.Rx.\n"
+    txt += "Import ListNotations.\nLocal Open Scope N_scope.\n"
     for p, d in (("lst", L), ("rsp", R)):
         txt += "Definition %s_pre : list (N * N) := %s.\n" % (p, _cr(d["pre"]))
         txt += "Definition %s_esc : bool := %s.\n" % (p, cbool(d["esc"]))
         txt += "Definition %s_excl : list (N * N) := %s.\n" % (p, _cr(d["excl"]))
+    txt += "Definition asctime_rx : rx := %s.\n" % asc_term
     fw.write_if_changed(GEN, txt)
     return None
 
@@ -540,6 +563,8 @@ def oracle_if_range_tag(t, weak, resp_specs, style="environ"):
         for i, (v, strong) in enumerate(resp_specs):
             cfg = RESP_CFGS[(i + len(t)) % len(RESP_CFGS)]
             resp = set_response_etag(v, strong, "pair", cfg) if v is not None else mk_response(cfg=cfg)
+            if i % 2:
+                resp.headers["Last-Modified"] = fmt_date(0)      # a tag mistaken for a date would match this
             has_strong = v is not None and strong and v == t
             got = resp in ir
             if got and not has_strong:
@@ -550,6 +575,48 @@ def oracle_if_range_tag(t, weak, resp_specs, style="environ"):
                     value, resp.headers.get("ETag"))
     except Exception as e:  # noqa
         return "if-range:raises:" + type(e).__name__, "If-Range: %s -- %s: %s" % (value, type(e).__name__, e)
+    return None
+
+
+NEAR_DATES = ["imf-no-gmt", "rfc850-no-gmt", "asctime+0000", "asctime-utc", "asctime-z", "asctime-est", "lower-case",
+              "upper-case", "one-space-day", "leading-space", "trailing-space", "comma", "two-digit-year", "iso", "imf-utc",
+              "no-day-name", "tab"]
+
+
+def near_date(d, variant):
+    """texts that email.utils can read as the instant d but that are NOT HTTP-dates (RFC 7231 7.1.1.1)"""
+    import time
+    g = time.gmtime(d)
+    a, imf = fmt_asctime(d), fmt_date(d)
+    return {
+        "imf-no-gmt": imf[:-4], "rfc850-no-gmt": time.strftime("%A, %d-%b-%y %H:%M:%S", g),
+        "asctime+0000": a + " +0000", "asctime-utc": a + " UTC", "asctime-z": a + " Z", "asctime-est": a + " EST",
+        "lower-case": a.lower(), "upper-case": a.upper(), "one-space-day": a[:8] + a[8:].lstrip(" ") if a[8] == " " else a[:8] + a[9:],
+        "leading-space": " " + a, "trailing-space": a + " ", "comma": a[:3] + "," + a[3:],
+        "two-digit-year": a[:-4] + a[-2:], "iso": time.strftime("%Y-%m-%dT%H:%M:%S", g), "imf-utc": imf[:-3] + "UTC",
+        "no-day-name": a[4:], "tab": a.replace(" ", "\t", 1),
+    }[variant]
+
+
+def oracle_if_range_near_date(d, variant, style="environ"):
+    """a text that is neither an entity-tag nor an HTTP-date must not be honoured as a date: a response that only has
+    an old enough Last-Modified (and no ETag, or another ETag) does not match it"""
+    from webob.etag import IfRangeDate
+    value = near_date(d, variant)
+    try:
+        req = mk_request(style, IF_RANGE=value)
+        ir = req.if_range
+        for cfg, etag in (("plain", None), ("subclass", ("other", True))):
+            resp = new_response(cfg)
+            if etag:
+                resp.etag = etag
+            set_last_modified(resp, max(0, d - 10), "header")
+            if resp in ir or isinstance(ir, IfRangeDate):
+                return ("if-range:non-date-read-as-date",
+                        "If-Range: %r (%s: not an HTTP-date) is honoured as a date: request.if_range = %r matches a response "
+                        "with Last-Modified %r" % (value, variant, ir, resp.headers.get("Last-Modified")))
+    except Exception as e:  # noqa
+        return "if-range:raises:" + type(e).__name__, "If-Range: %r -- %s: %s" % (value, type(e).__name__, e)
     return None
 
 
@@ -579,7 +646,17 @@ def set_last_modified(resp, lm, how):
 
 
 LM_HOWS = ["header", "attr", "naive", "aware+5", "int", "text"]
-DATE_FORMS = ["imf", "rfc850", "attr-datetime", "attr-naive"]
+DATE_FORMS = ["imf", "rfc850", "asctime", "attr-datetime", "attr-naive"]
+_DAYS = ["Mon", "Tue", "Wed", "Thu", "Fri", "Sat", "Sun"]
+_MONS = ["Jan", "Feb", "Mar", "Apr", "May", "Jun", "Jul", "Aug", "Sep", "Oct", "Nov", "Dec"]
+
+
+def fmt_asctime(t):
+    """RFC 7231 7.1.1.1 asctime-date: day-name SP month SP ( 2DIGIT / SP DIGIT ) SP time SP year -- no zone, GMT"""
+    import time
+    g = time.gmtime(t)
+    return "%s %s %2d %02d:%02d:%02d %04d" % (_DAYS[g.tm_wday], _MONS[g.tm_mon - 1], g.tm_mday, g.tm_hour, g.tm_min,
+                                               g.tm_sec, g.tm_year)
 
 
 def oracle_if_range_date(d, lms, how="header", form="imf", style="environ"):
@@ -591,6 +668,9 @@ def oracle_if_range_date(d, lms, how="header", form="imf", style="environ"):
     try:
         if form == "rfc850" and 0 <= d < 2145916800:        # obsolete form, two-digit year: 1970..2037 only
             value = time.strftime("%A, %d-%b-%y %H:%M:%S GMT", time.gmtime(d))
+            req = mk_request(style, IF_RANGE=value)
+        elif form == "asctime":                              # obsolete form without a zone
+            value = fmt_asctime(d)
             req = mk_request(style, IF_RANGE=value)
         elif form == "attr-datetime":                        # request.if_range = datetime (serialize_if_range)
             req = mk_request()
@@ -610,7 +690,8 @@ def oracle_if_range_date(d, lms, how="header", form="imf", style="environ"):
                 want = lm <= d
             got = resp in ir
             if bool(got) is not want:
-                return "if-range:date", "If-Range: %s (%s) against Last-Modified %r (%s): match is %r, expected %r" % (
+                key = "if-range:asctime-date-not-recognised" if form == "asctime" else "if-range:date"
+                return key, "If-Range: %s (%s) against Last-Modified %r (%s): match is %r, expected %r" % (
                     req.environ.get("HTTP_IF_RANGE"), form, resp.headers.get("Last-Modified"), how, got, want)
         if not (new_response() in mk_request(style).if_range and
                 mk_response('"x"', fmt_date(d)) in mk_request(style, IF_RANGE="").if_range):
@@ -677,8 +758,12 @@ def ref_of(items):
 
 
 def ref_answer(ref, which, probe):
+    """expected membership; None = the statement does not say (If-Range carrying `*` or a LIST of tags is not an If-Range
+    value -- RFC 7233: entity-tag / HTTP-date -- so only 'answers with a bool' is required there)"""
     if ref["kind"] == "absent":
         return which != "if_none_match"
+    if which == "if_range" and (ref["kind"] == "star" or len(ref["all"]) != 1):
+        return None
     if ref["kind"] == "star":
         return True
     if which == "if_none_match":
@@ -751,6 +836,8 @@ def oracle_req_history(steps):
                 _, which, probe = st
                 want = ref_answer(cur[which], which, probe)
                 got = ask(req, which, probe, resps)
+                if want is None:
+                    want = got if got in (True, False) else None
                 if got is not want:
                     fresh = ask(mk_request(**{GETTERS[w]: cur[w]["value"] for w in GETTERS}), which, probe, _Resps())
                     if fresh is want:
@@ -766,6 +853,8 @@ def oracle_req_history(steps):
                 which, m, ref, state = held[st[1] % len(held)]
                 want = ref_answer(ref, which, st[2])
                 got = ask_matcher(m, which, st[2], resps)
+                if want is None:
+                    want = got if got in (True, False) else None
                 if got is not want:
                     return ("history:matcher:wrong-answer-after-reuse",
                             "step %d: a matcher obtained from request.%s for %r answers %r for %r after earlier membership "
@@ -792,9 +881,10 @@ def oracle_module_order(items, order, shared):
         req = mk_request() if shared else None
         for which in order:
             r = req if shared else mk_request()
-            r.environ["HTTP_" + GETTERS[which]] = ref["value"]
+            wref = ref_of([list(items[0])]) if which == "if_range" else ref     # If-Range carries ONE tag
+            r.environ["HTTP_" + GETTERS[which]] = wref["value"]
             for p in probes:
-                got, want = ask(r, which, p, resps), ref_answer(ref, which, p)
+                got, want = ask(r, which, p, resps), ref_answer(wref, which, p)
                 if got is not want:
                     return ("history:module-order",
                             "header %r evaluated in the order %s: (%r in request.%s) is %r, expected %r" % (
@@ -879,7 +969,10 @@ def r_req_history(rng, length):
         which = rng.choice(list(GETTERS))
         probe = rng.choice(HIST_TAGS + [None, "zz"])
         if k < 0.3:
-            steps.append(["set", which, rng.choice(pool), rng.choice(["environ", "environ", "attr"])])
+            v = rng.choice(pool)
+            if which == "if_range" and rng.random() < 0.7:       # If-Range carries ONE entity-tag
+                v = [["", rng.random() < 0.4, rng.choice(HIST_TAGS)]]
+            steps.append(["set", which, v, rng.choice(["environ", "environ", "attr"])])
         elif k < 0.75:
             steps.append(["test", which, probe])
         elif k < 0.85:
@@ -940,7 +1033,7 @@ def oracle_setter_shapes(tags, which, form):
         resps = _Resps()
         for p in list(tags) + ["x", "zz", None]:
             got = ask(req, which, p, resps)
-            if ref is not None and got is not ref_answer(ref, which, p):
+            if ref is not None and ref_answer(ref, which, p) is not None and got is not ref_answer(ref, which, p):
                 return ("setter-shapes:" + form, "after request.%s = <%s %r>: (%r in request.%s) is %r, header text %r" % (
                     which, form, tags, p, which, got, req.environ.get("HTTP_" + GETTERS[which])))
     except Exception as e:  # noqa
@@ -1017,8 +1110,7 @@ def oracle_etag_outside(index, pair, cfg):
 
 def oracle_header_outside(which, form):
     """Header values that are not str (PEP 3333 requires native strings): the getter may only refuse with TypeError,
-    (AttributeError from IfRange.parse), never return a non-matcher or damage the environ; an asctime date (no ' GMT') in If-Range is read as an opaque
-    value and must fail safe (match nothing)."""
+    (AttributeError from IfRange.parse), never return a non-matcher or damage the environ (an asctime date is a str: it belongs to the if-range-date oracle)."""
     from webob.etag import ETagMatcher, IfRange, IfRangeDate, _AnyETag, _NoETag
     key = "HTTP_" + GETTERS[which]
     value = {"bytes": b'"a"', "int": 5, "list": ['"a"'], "asctime": "Fri Nov  9 01:08:47 2001", "false": False, "zero": 0}[form]
@@ -1035,11 +1127,6 @@ def oracle_header_outside(which, form):
             return "header-outside:environ-changed", "reading request.%s changed the environ value %r" % (which, value)
         if m is not None and type(m) not in (ETagMatcher, _AnyETag, _NoETag, IfRange, IfRangeDate):
             return "header-outside:not-a-matcher", "request.%s is %r for the environ value %r" % (which, m, value)
-        if form == "asctime" and which == "if_range":
-            r = set_response_etag("a", True, "pair")
-            set_last_modified(r, 1005268127, "header")
-            if r in m:
-                return "header-outside:asctime-matches", "If-Range %r (not recognised as a date) matches a response" % (value,)
     except Exception as e:  # noqa
         return "header-outside:raises:" + type(e).__name__, "request.%s with %r: %s: %s" % (which, value, type(e).__name__, e)
     return None
@@ -1124,6 +1211,8 @@ def oracle_case(case):
     if k == "if-range-date":
         return oracle_if_range_date(case["d"], case["lms"], case.get("how", "header"), case.get("form", "imf"),
                                     case.get("style", "environ"))
+    if k == "if-range-near-date":
+        return oracle_if_range_near_date(case["d"], case["variant"], case.get("style", "environ"))
     if k == "malformed":
         return oracle_malformed(case["value"], case.get("style", "environ"))
     if k == "req-history":
@@ -1276,6 +1365,7 @@ MODELLED = [
 REGENERATED = [
     "webob.etag:_rx_etag_list",                    # the pattern ETagMatcher.parse runs findall with -> lst_pre / lst_esc / lst_excl
     "webob.descriptors:_rx_etag",                  # the pattern parse/serialize_etag_response run match with -> rsp_*
+    "webob.etag:_rx_asctime",                      # the asctime-date shape IfRange.parse full-matches -> asctime_rx
 ]
 ORACLE_ONLY = [
     "webob.datetime_utils:parse_date",             # Section variable in the model; results recorded and replayed
@@ -1348,8 +1438,17 @@ def run(ctx):
     for i in range(n):
         k = r5.random()
         oc = []
-        if k < 0.3:
+        if k < 0.22:
             value = r_datey(r5)
+        elif k < 0.3:
+            dd = r5.choice([0, 784111777, 1005268127, 2 ** 31, r5.randrange(0, 4 * 10 ** 9)])
+            value = r5.choice([near_date(dd, r5.choice(NEAR_DATES)), near_date(dd, r5.choice(NEAR_DATES)),
+                               fmt_asctime(dd), fmt_asctime(dd), '"' + fmt_asctime(dd) + '"', 'W/"' + fmt_date(dd) + '"',
+                               '"' + fmt_date(dd) + '"', fmt_asctime(dd).replace("  ", " 0"), fmt_asctime(dd) + " ",
+                               fmt_asctime(dd)[4:], "x" + fmt_asctime(dd)])
+            if value == fmt_asctime(dd):
+                oc = [{"kind": "if-range-date", "d": dd, "lms": [None, max(0, dd - 1), dd, dd + 1], "how": "header",
+                       "form": "asctime"}]
         elif k < 0.6:
             t, w = r_tag(r5), r5.random() < 0.3
             value = render_tag(w, t)
@@ -1365,6 +1464,11 @@ def run(ctx):
         tbl = {}
         if value and value.endswith(" GMT"):
             tbl[value] = d
+        elif value and not value.startswith(('"', 'W/"')):
+            try:
+                d = tbl[value + " GMT"] = real_parse_date(value + " GMT")     # the asctime branch of IfRange.parse
+            except Exception:  # noqa
+                continue
         for _ in range(4):
             e = r5.choice([None, "", render_tag(False, "a"), render_tag(True, "a"), value, "a", r_header_value(r5)])
             if r5.random() < 0.5 and value and not value.endswith(" GMT") and '"' in value:
@@ -1512,7 +1616,8 @@ def run(ctx):
 
     def if_range_tags():
         r = ctx.sub_rng("oracle-if-range")
-        tl = tags2 if ctx.thorough else tags1 + ["a\\", "\\\\", "a,", ", ", "a GMT"]
+        tl = (tags2 if ctx.thorough else tags1 + ["a\\", "\\\\", "a,", ", ", "a GMT"]) + [
+            fmt_asctime(784111777), fmt_date(784111777), "Sunday, 06-Nov-94 08:49:37 GMT", " GMT", "GMT"]
         for t in tl:
             for weak in (False, True):
                 resps = [(None, True), (t, True), (t, False), (t + "x", True), ("", True), (t[:-1], True), (t + "\\", True)]
@@ -1528,7 +1633,7 @@ def run(ctx):
 
     def if_range_dates():
         r = ctx.sub_rng("oracle-if-range-date")
-        pts = [0, 1, 59, 60, 86399, 86400, 951782399, 951782400, 1005268127, 2 ** 31 - 1, 2 ** 31, 4102444800, 253402300799]
+        pts = [784111777, 0, 1, 59, 60, 86399, 86400, 951782399, 951782400, 1005268127, 2 ** 31 - 1, 2 ** 31, 4102444800, 253402300799]
         for d in pts:
             yield {"kind": "if-range-date", "d": d, "lms": [None, max(0, d - 1), d, min(253402300799, d + 1), 0, 10 ** 9],
                    "how": LM_HOWS[d % len(LM_HOWS)], "form": DATE_FORMS[(d // 7) % len(DATE_FORMS)]}
@@ -1543,6 +1648,14 @@ def run(ctx):
                    "how": r.choice(LM_HOWS), "form": r.choice(DATE_FORMS), "style": r.choice(REQ_STYLES)}
 
     sweep("if-range-date", if_range_dates())
+
+    def near_dates():
+        r = ctx.sub_rng("oracle-near-date")
+        for d in [784111777, 0, 86400 * 9, 1005268127, 2 ** 31] + [r.randrange(0, 4 * 10 ** 9) for _ in range(ctx.scale(20, 400))]:
+            for variant in NEAR_DATES:
+                yield {"kind": "if-range-near-date", "d": d, "variant": variant, "style": r.choice(REQ_STYLES)}
+
+    sweep("if-range-near-date", near_dates())
 
     def malformed():
         r = ctx.sub_rng("oracle-malformed")
